@@ -17,9 +17,11 @@
    or either of them inside a list, a mapping or a layer of a multiply-defined value, at any
    depth -- then each of them, and anything that forces one of them, renders to an error from
    some fuel on, never to a value (which error depends on what else the value holds).
-   The paths of the set may be members reached through plain mappings (${c:m}).
-   PARTIAL: cycles through nested paths (${${p}}) or through members of layered / referenced
-   values are covered by the cyclic streams of the check on every run, not by a theorem. *)
+   The paths of the set may be members reached through plain mappings (${c:m}), and a
+   reference may assemble its path from nested references (${${p}}).
+   PARTIAL: cycles through members of layered / referenced values (the walk passes through a
+   ValueList or a reference) are covered by the cyclic streams of the check on every run, not
+   by a theorem. *)
 From RV Require Import Model.Interp Proofs.WfFacts Proofs.StateFacts Proofs.StateIndep Proofs.Mono Proofs.NoPanic Proofs.Termination Proofs.CycleFacts Proofs.CycleGeneral.
 
 (** The depth error is raised exactly at nesting depth 64 (documented limit), whatever the
@@ -120,8 +122,9 @@ Proof.
 Qed.
 
 (** No placement of a cycle yields a value.  [forces root ks v]: rendering [v] to a value needs
-    a reference ${p}, p in [ks], rendered -- as the whole value, embedded in text, or inside a
-    list, a mapping or a layer, at any depth.  The paths of [ks] are parameters (k) or members
+    a reference whose path (a literal, or assembled from nested references) is some p in [ks]
+    rendered -- as the whole value, embedded in text, or inside a list, a mapping or a layer, at
+    any depth.  The paths of [ks] are parameters (k) or members
     reached through plain mappings (k:a:b).  If the value at every path of the set forces a
     reference into the set, whatever forces one of them renders to one and the same error from
     some fuel on: never a value, never a panic, never without end. *)
@@ -130,26 +133,30 @@ Theorem C08_no_placement_of_a_cycle_yields_a_value :
   forall ks,
     (forall p, In p ks ->
        exists k0 segs v0 v', split_on ":" p = k0 :: segs /\ m_get (VStr k0) root = Some v0 /\
-                             raw_lookup segs v0 = Some v' /\ forces ks v') ->
-  forall v st, wf v -> forces ks v ->
+                             raw_lookup segs v0 = Some v' /\ forces root ks v') ->
+  forall v st, wf v -> forces root ks v ->
     exists F0 e, forall F, F0 <= F -> interp F root v st = Err e.
 Proof. intros root Hw ks Hc v st Hv Hf. exact (forcing_a_cycle_is_an_error root Hw ks Hc v st Hv Hf). Qed.
 Eval cbv in "ASSUMPTIONS-OF C08_no_placement_of_a_cycle_yields_a_value"%string. Print Assumptions C08_no_placement_of_a_cycle_yields_a_value.
 
-(** non-vacuity: a cycle through an embedded reference, a list element, a mapping value and a
-    member path *)
+(** non-vacuity: a cycle through an embedded reference, a list element with a member path, a
+    mapping value, and a fully indirect reference ${${ptr}} whose path is assembled from another
+    parameter *)
 Example C08_general_cycle_hypotheses_hold :
   let root := [ mk_entry (VStr "a") (VStr "x${b}") false false;
                 mk_entry (VStr "b") (VSeq [VNum (NInt 1); VStr "${c:m}"]) false false;
-                mk_entry (VStr "c") (VMap [mk_entry (VStr "m") (VStr "${a}") false false]) false false ] in
+                mk_entry (VStr "c") (VMap [mk_entry (VStr "m") (VStr "${${ptr}}") false false]) false false;
+                mk_entry (VStr "ptr") (VStr "a") false false ] in
   forall p, In p ["a"; "b"; "c:m"] ->
     exists k0 segs v0 v', split_on ":" p = k0 :: segs /\ m_get (VStr k0) root = Some v0 /\
-                          raw_lookup segs v0 = Some v' /\ forces ["a"; "b"; "c:m"] v'.
+                          raw_lookup segs v0 = Some v' /\ forces root ["a"; "b"; "c:m"] v'.
 Proof.
   cbn zeta. intros p [<-|[<-|[<-|[]]]]; do 4 eexists; (split; [reflexivity|]); (split; [reflexivity|]); (split; [reflexivity|]).
-  - cbn [forces]. eexists. split; [vm_compute; reflexivity|]. apply Exists_cons_tl, Exists_cons_hd. cbn. tauto.
-  - cbn [forces]. right. left. eexists. split; [vm_compute; reflexivity|]. cbn. tauto.
-  - cbn [forces]. eexists. split; [vm_compute; reflexivity|]. cbn. tauto.
+  - cbn [forces]. eexists. split; [vm_compute; reflexivity|]. apply Exists_cons_tl, Exists_cons_hd.
+    apply cyc_parts_lit. cbn. tauto.
+  - cbn [forces]. right. left. eexists. split; [vm_compute; reflexivity|]. apply cyc_parts_lit. cbn. tauto.
+  - cbn [forces]. eexists. split; [vm_compute; reflexivity|].
+    exists 12, st0, "a"%string. split; [vm_compute; reflexivity | cbn; tauto].
 Qed.
 
 (** Boundary evaluations on the model (kernel computations, instances -- not the general claim):
